@@ -16,15 +16,15 @@ ID = 'C18'
 RULE = ('Parents: every entry kind and postings, parsed from generated texts whose existing meta layout is one of none / uniform indent of '
         'width 1-8 in spaces or tabs / mixed indents, with posting indents over blanks; indent_by over [ \\t]{0,8} set after parsing or at construction; '
         'routes: meta[key] = value, raw_meta.append(MetaItem.from_value(indent=X)), raw_meta_with_comments.append(BlockComment.from_value(indent=X)), '
-        'leading_comment / trailing_comment setters on postings and meta items, from_value(meta={...}) for entries and postings, and parents built with '
+        'leading_comment / trailing_comment setters on postings and meta items (in half the cases the created leading comment is then re-indented through its raw_text and its text set again through the owner), from_value(meta={...}) for entries and postings, and parents built with '
         'every constructor that accepts indent_by (found by reflection; arguments planned as in C15), optionally with their meta cleared, then meta[key] = value. Oracle: a meta item '
         'created from a plain value takes the indent its existing siblings share, or parent indent + indent_by when there are none (any existing '
         'sibling\'s indent when they disagree); a comment created by an indented owner\'s setter has the owner\'s indent; an inserted raw node keeps its '
-        'indent verbatim; every pre-existing indent token and comment indent is unchanged. Non-trivial = indent_by != four spaces, or the parent is a '
+        'indent verbatim; every pre-existing indent token and comment indent is unchanged, including a comment's own lines when its text is set again. Non-trivial = indent_by != four spaces, or the parent is a '
         'posting, or the existing items use a non-default indent.')
 ASSUMPTIONS = ['with disagreeing sibling indents any sibling\'s indent is accepted (docs and code differ on first vs last)']
 SHRINK_LISTS = ('ops',)
-REQUIRED_CLASSES = ('meta-view-used-before', 'parent-reindented', 'route:map-set', 'map-set:update', 'map-set:setdefault', 'route:raw-append', 'route:comment-append', 'route:comment-setter', 'route:from_value', 'route:constructed', 'constructed:from_value', 'constructed:from_children', 'constructed:cleared', 'parent:posting', 'parent:entry',
+REQUIRED_CLASSES = ('meta-view-used-before', 'parent-reindented', 'route:map-set', 'map-set:update', 'map-set:setdefault', 'route:raw-append', 'route:comment-append', 'route:comment-setter', 'comment-reset', 'route:from_value', 'route:constructed', 'constructed:from_value', 'constructed:from_children', 'constructed:cleared', 'parent:posting', 'parent:entry',
                     'layout:none', 'layout:uniform', 'layout:mixed')
 
 ENTRY_KINDS = sorted(L.G.ENTRY_KINDS)
@@ -131,6 +131,20 @@ def run_case(case: dict) -> Result:
                         f'{getattr(c, "indent", None)!r}, the owner\'s indent is {owner.indent!r}')
             elif not all(line.startswith(owner.indent + ';') for line in c.raw_text.split('\n')):
                 res.bad(f'setter-comment-indent:{type(owner).__name__}.{attr}', f'{what}: created comment prints {c.raw_text!r}')
+            elif case.get('reset') and attr == 'leading_comment':
+                # the comment is then re-indented verbatim through its raw text (a raw edit keeps its indent as is) and its text changed through
+                # the owner's plain-value setter again: the now existing comment lines keep the indentation they were given
+                x = case['reset']['x']
+                c.raw_text = '\n'.join(x + line.lstrip(' \t') for line in c.raw_text.split('\n'))
+                classes.add('comment-reset')
+                if c.indent != x:
+                    res.bad('raw-indent-changed:comment-raw-text', f'{what}: the comment re-indented through raw_text to {x!r} reports indent {c.indent!r}')
+                else:
+                    setattr(owner, attr, case['reset']['text'])
+                    c2 = getattr(owner, 'raw_' + attr)
+                    if c2 is None or not all(line.startswith(x + ';') for line in c2.raw_text.split('\n')):
+                        res.bad('existing-indent-changed:comment-reset', f'{what}: {type(owner).__name__}.{attr} = {case["reset"]["text"]!r} on an existing comment '
+                                f'indented {x!r} now prints {getattr(c2, "raw_text", None)!r}')
         else:
             return Result(discard=True)
     except common.REFUSAL:
@@ -293,6 +307,8 @@ def _build(tier: str):
                 'x': blanks() if g.p(0.8) else '', 'text': D.comment_value(g), 'attr': g.pick(['leading_comment', 'trailing_comment']),
                 'on_meta': g.p(0.5), 'oi': g.n(0, 3), 'prime_meta': g.p(0.5), 'reindent': blanks() if g.p(0.4) else None, 'reindent_raw': g.p(0.3),
                 'how': g.pick(['setitem', 'setitem', 'update', 'update-kw', 'setdefault'])}
+        if g.p(0.5):
+            case['reset'] = {'x': blanks() if g.p(0.8) else '', 'text': D.comment_value(g)}
         if route == 'comment-setter' and not posting and k == 0:
             case['route'] = 'map-set'
         return case
